@@ -237,6 +237,9 @@ func randomBuilderCase(r *rand.Rand) []bOp {
 			live[b] = true
 			curM[b] = []string{"GET", "POST", "PUT"}[r.Intn(3)]
 			curP[b] = fmt.Sprintf("/p%d", made)
+			if r.Intn(8) == 0 {
+				curP[b] = pick(r, []string{"/", ""}) // the root resource of the WebService
+			}
 			ops = append(ops, bOp{Op: "new", B: b, M: curM[b], V: []string{curP[b]}})
 		case !live[b]:
 			continue
